@@ -87,6 +87,20 @@ impl Oracle {
                     Err(_) => "ok".into() };
                 let _ = self.run.run_line(line); verdict
             }
+            ("C06", "nal") => {
+                // a complete slice NAL, however chunked, parses exactly like its RBSP (un-escaped by the reference routine of
+                // this harness) read from one contiguous buffer: same header, same position on the first bit of slice data
+                let chunks = chunks_of(toks[1]); let all: Vec<u8> = chunks.concat();
+                let got = self.run.run_line(line);
+                if toks[2] == "1" && !all.is_empty() && matches!(all[0] & 0x1f, 1 | 5) && all[0] & 0x80 == 0 {
+                    let (rbsp, valid) = unescape(&all[1..]);
+                    if valid && !rbsp.is_empty() {
+                        let want = format!("slice:{}", self.run.run_line(&format!("slice {:02x} {}", all[0], hex(&rbsp))));
+                        if got != want { return format!("FAIL slice NAL in {} chunk(s) gave [{}] but its RBSP read contiguously gives [{}]", chunks.len(), &got[..got.len().min(300)], &want[..want.len().min(300)]); }
+                    }
+                }
+                "ok".into()
+            }
             ("C13", "derived") => self.c13(line),
             ("C16", "sps") | ("C16", "pps") | ("C16", "slice") => self.c16(&toks, line),
             ("C09", "avcc") => self.c09(toks.get(1).copied().unwrap_or(""), line),
@@ -361,7 +375,9 @@ impl Oracle {
             for n in l { if n.is_empty() { return "ParamSet(Empty)".into(); } if n[0] & 0x80 != 0 { return "ParamSet(ForbiddenZeroBit)".into(); } if n[0] & 31 != want { return "ParamSet(IncorrectNalType)".into(); } }
             format!("Ok({})", l.iter().map(|n| hex(n)).collect::<Vec<_>>().join(","))
         };
-        let want = format!("Ok v={} n={} prof={} compat={} level={} lsm1={} sps={} pps={} ", d[0], nsps, d[1], d[2], d[3], d[4] & 3, render(&lists[0], 7), render(&lists[1], 8));
+        // A.3: the level byte is the level, except that 11 with constraint_set3_flag means Level 1b
+        let level = format!("{}{}", d[3], if d[3] == 11 && d[2] & 0x10 != 0 { "b" } else { "" });
+        let want = format!("Ok v={} n={} prof={} compat={} level={} lsm1={} sps={} pps={} ", d[0], nsps, d[1], d[2], level, d[4] & 3, render(&lists[0], 7), render(&lists[1], 8));
         if obs.starts_with(&want) { "ok".into() } else { format!("FAIL accessors / iterators gave [{}] expected [{}]", &obs[..obs.len().min(300)], &want[..want.len().min(300)]) }
     }
 
